@@ -37,6 +37,8 @@ def dispatch (st : DriverState) (line : String) : DriverState × String :=
     | some e => ({ st with ztables := e :: st.ztables }, ztableQuality e.2)
     | none => (st, "bad-ztable")
   | "game" :: args => (st, gameOp st args)
+  -- the same script judged against the model only: take-backs below fork points (shared, mutable history)
+  | "gamex" :: args => (st, ((gameOp st args).splitOn " ## ").headD "")
   | "search" :: args => (st, searchOp st args)
   | "engine" :: args => (st, engineOp st args)
   | "uci" :: args => (st, uciOp st args)
